@@ -96,6 +96,8 @@ func c12Cases(tier string) []Case {
 	ex("meta-origin-bad-text", "vars {\n portion $x = meta(@a, \"k\")\n}\n"+send("[USD 10]", "@world", "{ $x to @d remaining to @e }"), "_meta=a.k:twelve percent", "", "BadPortionParsingErr")
 	ex("meta-origin-bad-text", "vars {\n monetary $x = meta(@a, \"k\")\n}\n"+send("$x", "@world", "@d"), "_meta=a.k:USD/2", "", "InvalidMonetaryLiteral")
 	ex("meta-origin-bad-text", "vars {\n account $x = meta(@a, \"k\")\n}\n"+send("[USD 1]", "@world", "$x"), "_meta=a.k:not an account", "", "InvalidAccountName")
+	ex("same-key-twice", "set_tx_meta(\"k\", 1)\nset_tx_meta(\"k\", 2)\nset_tx_meta(\"k\", 2)", "", "", "")
+	ex("same-key-twice", "vars {\n monetary $m\n portion $p\n}\nset_tx_meta(\"k\", $m)\nset_tx_meta(\"k\", $m)\nset_tx_meta(\"p\", $p)\nset_tx_meta(\"p\", 1/2)\nset_account_meta(@a, \"k\", $m)\nset_account_meta(@a, \"k\", $m)", "m=mon:USD;p=portion:1/2", "", "")
 	ex("experimental-flag", "vars {\n monetary $o = overdraft(@a, USD)\n}\n"+send("$o", "@world", "@d"), "", "", "ExperimentalFeature")
 	ex("negative-balance", "vars {\n monetary $m = balance(@a, USD)\n}\n"+send("$m", "@world", "@d"), "", "", "|NegativeBalanceError")
 	ex("zero-denominator", send("[USD 10]", "@world", "{ 1/0 to @d remaining to @e }"), "", "", "BadPortionParsingErr|InvalidAllotmentSum|other")
